@@ -17,7 +17,7 @@ pub fn meta() -> Meta {
     Meta {
         id: "C02",
         level: "exploration",
-        rule: "metamorphic relation on the real builder, enumerated completely per input family: F1 every record over {A,C,G,T,N} up to length 7 (k=5) with its reverse complement, every case mask (length<=6) and every line width; F2 the restart family L+N+R (k-mers on both sides of an N) against its reverse complement; F3 for all 30 k a repeat-free string of k+3 letters with N at every position: reverse complement, lower/alternating case, line widths 1,2,k,len-1, gzip; F4 every ordered triple from a record pool with every subset reverse-complemented and every permutation; F5 every permutation of 3 and 4 samples through build_and_merge (columns permute with the names), and reversed/rotated orders of 72 samples through `ska build --threads 8` (recursive parallel merge). Non-trivial = the original input has at least one split k-mer and the transformed file differs from the original.".into(),
+        rule: "metamorphic relation on the real builder, enumerated completely per input family: F1 every record over {A,C,G,T,N} up to length 7 (k=5) with its reverse complement, every case mask (length<=6) and every line width; F2 the restart family L+N+R (k-mers on both sides of an N) against its reverse complement; F3 for all 30 k a repeat-free string of k+3 letters with N at every position: reverse complement, lower/alternating case, line widths 1,2,k,len-1, gzip (with and without .gz extension), CRLF line ends, header descriptions + blank lines + no final newline, an empty record in front, and the same records as FASTQ built with min-count 1 and no quality rule; F4 every ordered triple from a record pool with every subset reverse-complemented and every permutation; F5 every permutation of 3 and 4 samples through build_and_merge (columns permute with the names), and reversed/rotated orders of 72 samples through `ska build --threads 8` (recursive parallel merge). Non-trivial = the original input has at least one split k-mer and the transformed file differs from the original.".into(),
         assumptions: vec!["a file without split k-mers may be refused; refusal is treated as the empty dictionary on both sides".into()],
         exhaustive_when_uncapped: true,
     }
@@ -35,6 +35,51 @@ fn wrap(records: &[Vec<u8>], width: usize) -> Vec<u8> {
             out.extend_from_slice(chunk);
             out.push(b'\n');
         }
+    }
+    out
+}
+
+/// the same records in other legal FASTA dress: 0 = CRLF line ends, 1 = header descriptions + blank line after each
+/// record + no final newline, 2 = an empty record in front, 3 = CRLF and wrapped
+fn dress(records: &[Vec<u8>], how: usize, width: usize) -> Vec<u8> {
+    let mut out = Vec::new();
+    if how == 2 {
+        out.extend_from_slice(b">empty\n");
+    }
+    let eol: &[u8] = if how == 0 || how == 3 { b"\r\n" } else { b"\n" };
+    for (i, r) in records.iter().enumerate() {
+        if how == 1 {
+            out.extend_from_slice(format!(">r{i} sample={i}\tlen={} | x", r.len()).as_bytes());
+        } else {
+            out.extend_from_slice(format!(">r{i}").as_bytes());
+        }
+        out.extend_from_slice(eol);
+        let w = if how == 3 { width.max(1) } else { r.len().max(1) };
+        for chunk in r.chunks(w) {
+            out.extend_from_slice(chunk);
+            out.extend_from_slice(eol);
+        }
+        if how == 1 {
+            out.push(b'\n');
+        }
+    }
+    if how == 1 {
+        while out.last() == Some(&b'\n') {
+            out.pop();
+        }
+    }
+    out
+}
+
+/// the records as FASTQ with a uniform quality (built with min-count 1 and no quality rule by the harness)
+fn as_fastq(records: &[Vec<u8>]) -> Vec<u8> {
+    let mut out = Vec::new();
+    for (i, r) in records.iter().enumerate() {
+        out.extend_from_slice(format!("@r{i}\n").as_bytes());
+        out.extend_from_slice(r);
+        out.extend_from_slice(b"\n+\n");
+        out.extend(std::iter::repeat(b'I').take(r.len()));
+        out.push(b'\n');
     }
     out
 }
@@ -218,6 +263,13 @@ pub fn run(ctx: &Ctx, rep: &mut Report) {
                             c.relate(&orig, &recs, "line width", &wrap(&recs, w), "c02b.fa");
                         }
                         c.relate(&orig, &recs, "gzip", &gz(&scratch::fasta(&recs)), "c02b.fa.gz");
+                        c.relate(&orig, &recs, "gzip without extension", &gz(&scratch::fasta(&recs)), "c02b_plain");
+                        for how in 0..4 {
+                            c.relate(&orig, &recs, ["CRLF line ends", "header descriptions, blank lines, no final newline", "empty record in front", "CRLF and wrapped"][how], &dress(&recs, how, k - 2), "c02b.fa");
+                        }
+                        if !s.is_empty() {
+                            c.relate(&orig, &recs, "same records as FASTQ (min-count 1, no quality rule)", &as_fastq(&recs), "c02b.fastq");
+                        }
                         c.rep.corner("every_k");
                     }
                 }
@@ -257,6 +309,9 @@ pub fn run(ctx: &Ctx, rep: &mut Report) {
                             c.relate_records(&orig, &recs, "permute records", &t);
                         }
                         c.relate(&orig, &recs, "gzip", &gz(&scratch::fasta(&recs)), "c02b.fa.gz");
+                        for how in [1usize, 3] {
+                            c.relate(&orig, &recs, ["", "header descriptions, blank lines, no final newline", "", "CRLF and wrapped"][how], &dress(&recs, how, 3), "c02b.fa");
+                        }
                     }
                     rep.corner("record_triples");
                     if ctx.expired() {
